@@ -10,6 +10,7 @@ import sys
 import tempfile
 import time
 
+from nutree import Tree
 from nutree.fs import FileSystemTree, load_tree_from_fs
 
 from . import core, pipeline as P
@@ -18,7 +19,8 @@ from .queries import call
 
 # sort-sensitive names: digits, upper/lower case, punctuation, unicode; ranks = positions in Python's own order
 NAMES = sorted(["0", "10", "2", "A", "B", "Z.txt", "_x", "a", "a.txt", "a1", "a10", "a2", "b", "b B", "Ä", "ä",
-                "日本", "z", "cafe.txt", "cafe\u0301.txt", "cafz.txt", "caf\u00e9.txt", ".hidden"])   # NFD and NFC forms
+                "日本", "z", "cafe.txt", "cafe\u0301.txt", "cafz.txt", "caf\u00e9.txt", ".hidden",
+                os.fsdecode(b"caf\xe9-latin1.txt")])   # NFD and NFC forms; a name that is not valid UTF-8 (surrogate escape)
 assert NAMES == sorted(NAMES) and len(set(NAMES)) == len(NAMES)
 RANK = {nm: i + 1 for i, nm in enumerate(NAMES)}
 
@@ -118,20 +120,29 @@ def _battery(args):
                 def scan(sort=sort):
                     return load_tree_from_fs(root, sort=sort)
 
-                def norm(t):
+                def norm(t, cls=FileSystemTree):
                     tr, ok = nested(t, root)
-                    return {"tree": tr, "stat_ok": ok, "cls": type(t) is FileSystemTree}
+                    return {"tree": tr, "stat_ok": ok, "cls": type(t) is cls}
                 obs.append({"q": "scan", "a": {"sort": sort}, "r": call(scan, norm)})
 
-                def reload(sort=sort):
+                def reload(sort=sort, via="fstree"):
                     t = load_tree_from_fs(root, sort=sort)
                     path = os.path.join(tmp, f"s{base + k}_{int(sort)}.nutree")
-                    if sort:
+                    if via == "ascii_stream":      # a caller-opened stream with a narrow encoding
+                        with open(path, "w", encoding="ascii") as fp:
+                            t.save(fp)
+                    elif sort:
                         t.save(path)
                     else:
                         t.save(path, compression=True, key_map=False)
+                    if via == "generic":           # the generic loader with the FileSystemTree mapper
+                        return Tree.load(path, mapper=FileSystemTree.deserialize_mapper)
                     return FileSystemTree.load(path)
                 obs.append({"q": "reload", "a": {"sort": sort}, "r": call(reload, norm)})
+                via = ("generic", "ascii_stream")[(base + k + int(sort)) % 2]
+                obs.append({"q": "reload", "a": {"sort": sort, "via": via}, "r": call(
+                    lambda sort=sort, via=via: reload(sort, via),
+                    lambda t, via=via: norm(t, Tree if via == "generic" else FileSystemTree))})
             out.append({"id": base + k, "st": st, "rank": rank, "obs": obs})
             shutil.rmtree(root, ignore_errors=True)
     finally:
